@@ -277,6 +277,21 @@ Theorem C03_direction_roundtrip : forall d l, dir_sexp d = EmOk l ->
 Proof. exact dir_roundtrip. Qed.
 Print Assumptions C03_direction_roundtrip.
 
+(* a whole (port ..) construct, scalar or array, renamed or not, any direction: parse_port gives the
+   port back when no earlier sibling has its identifier or name *)
+Theorem C03_port_roundtrip : forall ports p x, port_w p = true -> port_sexp p = EmOk x ->
+  ident_taken (po_ident p) (map po_ident ports) = false ->
+  name_taken (po_name p) (map po_name ports) = false ->
+  exists args, x = SList (KW "port" :: args) /\ parse_port ports args = Ok p.
+Proof. exact port_roundtrip. Qed.
+Print Assumptions C03_port_roundtrip.
+(* the name of an element (library, cell, port, instance, net, design): legal identifier and name back *)
+Theorem C03_elemname_roundtrip : forall ident name x, ident_w ident = true -> text_ok name = true ->
+  name_sexp ident name = EmOk x ->
+  exists n, parse_elemname x = Ok n /\ nm_ident n = ident /\ nm_name n = name.
+Proof. exact elemname_roundtrip. Qed.
+Print Assumptions C03_elemname_roundtrip.
+
 (* The general statement over the decidable class [writable] (Fmt/EdifEmit.v: what the reader
    checks on the written file, minus the open findings: "&_" buses, bit-like scalar names, names
    with * ?, non-ASCII text, line breaks in strings). NOT PROVED. Every run evaluates, on every
